@@ -487,7 +487,11 @@ func (r *recorder) randomWords(rng *rand.Rand, n int, gold []goldRow, base [][]b
 		// buffer length: usually generous, often cut at every possible place
 		switch k := rng.Intn(8); {
 		case k < 3:
-			buf = buf[:rng.Intn(len(buf)+1)]
+			if rng.Intn(5) == 0 {
+				buf = buf[:rng.Intn(4)] // shorter than one dword
+			} else {
+				buf = buf[:4+rng.Intn(len(buf)-3)]
+			}
 			tag += "/cut"
 		case k < 5:
 			buf = buf[:4*(1+rng.Intn(len(buf)/4))]
